@@ -155,6 +155,9 @@ func (cc *ClientConn) Authorize(access int) bool {
 func (cc *ClientConn) Disconnect() {
 	cc.Server.ClientMgr.Delete(cc.ID)
 
+	// A departed client is no longer a member of any private chat: its ID may be handed to a later connection.
+	cc.Server.ChatMgr.LeaveAll(cc.ID)
+
 	for _, t := range cc.NotifyOthers(NewTransaction(TranNotifyDeleteUser, [2]byte{}, NewField(FieldUserID, cc.ID[:]))) {
 		cc.Server.outbox <- t
 	}
